@@ -290,7 +290,8 @@ def c12(ctx):
 
 def c13(ctx):
     return grammar_check(ctx, {"meta_ws", "meta_alias", "meta_notation", "meta_sup", "meta_plus", "meta_wrap"}, {"*": 4}, {"*": 5, "f64": 6},
-                         {"assignments": 2, "all_functions": True, "extras": ["spellings"], "event_every": 200, "event_cap": 1500, "nontrivial_min_ops": 1})
+                         {"assignments": 2, "all_functions": True, "extras": ["spellings"], "event_every": 200, "event_cap": 1500, "nontrivial_min_ops": 1},
+                         lexer={"alphabets": ["lit", "kw1", "kw2"], "k_quick": 3, "k_thorough": 4, "invs": ["WsInvariant"]})
 
 def c14(ctx):
     return grammar_check(ctx, {"value", "meta_ans", "ok_on_reject"}, {"*": 4}, {"*": 5, "f64": 6},
